@@ -491,7 +491,8 @@ class Model(Immutable):
             'statements': self._statements.to_dict(),
             'execution_steps': self._execution_steps.to_dict(),
             'datainfo': self._datainfo.to_dict(),
-            'value_type': self._value_type,
+            # NOTE: A symbol is stored by its name
+            'value_type': str(self._value_type),
             'dependent_variables': depvars,
             'observation_transformation': obstrans,
             'initial_individual_estimates': ie,
@@ -514,13 +515,16 @@ class Model(Immutable):
             Expr.deserialize(key): Expr.deserialize(val)
             for key, val in d['observation_transformation'].items()
         }
+        value_type = d['value_type']
+        if value_type not in ('PREDICTION', 'LIKELIHOOD', '-2LL'):
+            value_type = Expr.symbol(value_type)
         return cls(
             parameters=Parameters.from_dict(d['parameters']),
             random_variables=RandomVariables.from_dict(d['random_variables']),
             statements=Statements.from_dict(d['statements']),
             execution_steps=ExecutionSteps.from_dict(d['execution_steps']),
             datainfo=DataInfo.from_dict(d['datainfo']),
-            value_type=d['value_type'],
+            value_type=value_type,
             dependent_variables=frozenmapping(depvars),
             observation_transformation=frozenmapping(obstrans),
             initial_individual_estimates=ie,
